@@ -62,6 +62,8 @@ func classify(err error) string {
 		return "EU256"
 	case is(serializer.ErrInvalidBytes):
 		return "EInvalid"
+	case is(errZooInvalid):
+		return "EValidator"
 	}
 	return "EOther"
 }
@@ -250,7 +252,7 @@ func (ru *run) addEnc(tc *tcase, val bool, vterm string, b []byte, cls string) {
 	}
 	ru.cf.Add(fmt.Sprintf("CEnc %s %s %s %s", vx.Bool(val), tc.name, vterm, o))
 	ru.st.CaseIndex = append(ru.st.CaseIndex, map[string]any{"op": "enc", "type": tc.idx, "val": val, "value": clip(vterm), "out": clsOr(cls, b)})
-	ru.st.Case(hashOf(tc.sch+vterm+vx.Bool(val)), tc.eff.K >= KPtr)
+	ru.st.Case(hashOf(tc.sch+vterm+vx.Bool(val)), tc.eff.K >= KPtr && tc.eff.K != KCustom)
 	ru.st.Count("enc:" + clsName(cls))
 }
 
@@ -272,7 +274,7 @@ func (ru *run) addDec(tc *tcase, val bool, in []byte, d decRes) {
 	}
 	ru.cf.Add(fmt.Sprintf("CDec %s %s %s %s", vx.Bool(val), tc.name, vx.Bytes(in), o))
 	ru.st.CaseIndex = append(ru.st.CaseIndex, map[string]any{"op": "dec", "type": tc.idx, "val": val, "in": hex.EncodeToString(in), "out": clsName(d.cls), "n": d.n})
-	ru.st.Case(hashOf(tc.sch+hex.EncodeToString(in)+vx.Bool(val)), tc.eff.K >= KPtr)
+	ru.st.Case(hashOf(tc.sch+hex.EncodeToString(in)+vx.Bool(val)), tc.eff.K >= KPtr && tc.eff.K != KCustom)
 	ru.st.Count("dec:" + clsName(d.cls))
 }
 
@@ -1000,6 +1002,61 @@ func (ru *run) directed(known *[]string) {
 							}
 						}
 					}
+				}
+			}
+		}
+	}
+	// custom codecs with and without a registered syntactic validator, with and without an object code: payloads the
+	// validator accepts and rejects, through Encode and Decode in both modes; oracle (C03's own): what the validating
+	// decoder accepts re-encodes with validation to the same bytes (and therefore passes the validator)
+	for _, zt := range zooTypes {
+		for _, coded := range []bool{false, true} {
+			for _, pred := range []string{"pred_lt2", "pred_even_len", "pred_first_nonzero"} {
+				if (zt == tZooFix || zt == tZooLP) && pred != "pred_lt2" {
+					continue // unvalidated types: one round
+				}
+				if zt == tZooLPV && pred == "pred_lt2" {
+					pred = "pred_sum_even"
+				}
+				cn := &Node{K: KCustom, T: zt}
+				tcC := mk(cn, TS{}, func(sh *Shape) {
+					if zt == tZooFixV || zt == tZooLPV {
+						sh.Pred = map[reflect.Type]string{zt: pred}
+					}
+					if coded {
+						sh.Reg[zt] = &TS{Code: &TyCode{C: 9}}
+						sh.RegOrd = append(sh.RegOrd, zt)
+					}
+				})
+				pre := []byte{}
+				if coded {
+					pre = []byte{9}
+				}
+				var ins [][]byte
+				if zt == tZooFix || zt == tZooFixV {
+					ins = [][]byte{{2, 5}, {5, 2}, {0, 0}, {1, 0, 7}, {3}, {}}
+				} else {
+					ins = [][]byte{{2, 7, 7, 1}, {1, 7}, {0}, {3, 0, 1, 2}, {3, 7}, {2, 0, 0}, {}}
+				}
+				for _, in0 := range ins {
+					in := append(append([]byte{}, pre...), in0...)
+					for _, val := range []bool{true, false} {
+						d := doDecode(tcC.sh, zt, in, val, false)
+						ru.addDec(tcC, val, in, d)
+						if d.cls != "" {
+							continue
+						}
+						for _, eval := range []bool{true, false} {
+							b2, cls2, _ := doEncode(tcC.sh, d.ptr.Elem(), eval)
+							ru.addEnc(tcC, eval, toCoq(tcC.eff, d.ptr.Elem()), b2, cls2)
+							if val && eval && (cls2 != "" || !bytes.Equal(b2, in[:d.n])) {
+								ru.fail("noncanonical-accepted", tcC, "custom codec: validating Decode accepted bytes that do not re-encode (with validation) to themselves", map[string]any{"in": hex.EncodeToString(in), "reencoded": clsOr(cls2, b2), "validator": pred})
+							}
+						}
+					}
+				}
+				if coded { // wrong code
+					ru.addDec(tcC, true, []byte{8, 2, 5}, doDecode(tcC.sh, zt, []byte{8, 2, 5}, true, false))
 				}
 			}
 		}
